@@ -66,6 +66,20 @@ fn main() {
     kit::refhash::self_test();
     kit::runner::install_panic_hook();
 
+    // Whole-process watchdog: a hang is an infrastructure outcome (exit 2), never a violation.
+    {
+        let limit: u64 = std::env::var("VERIF_WATCHDOG_S").ok().and_then(|s| s.parse().ok()).unwrap_or(match tier {
+            Tier::Quick => 1500,
+            Tier::Thorough => 6 * 3600,
+        });
+        let what = format!("{prop_id} {}", tier.as_str());
+        std::thread::spawn(move || {
+            std::thread::sleep(std::time::Duration::from_secs(limit));
+            eprintln!("INCONCLUSIVE: watchdog: {what} still running after {limit} s (a generated case may not terminate); no verdict");
+            std::process::exit(2);
+        });
+    }
+
     let def = match props::get(&prop_id) {
         Some(d) => d,
         None => {
